@@ -72,7 +72,7 @@ func TestC01(t *testing.T) {
 	defer r.Finish()
 	r.SetRule("case = (quorum q, required r, vote multiset) fed to base.FindMajority, base.FindVoteResult and Threshold.VoteResult; exhaustive q<=Q0 over all r in 1..q+2 and all multisets over <=4 facts with sum<=q+3, then PRNG cases q<=500 near the boundary; distinct = (q, min(r,q), sorted multiset); non-trivial = at least one vote")
 	r.Assume("quorum 0 is not generated (no suffrage of size 0 exists)")
-	r.Assume("Threshold.VoteResult is judged against the count the code's own Threshold.Threshold returned (C02 judges that count)")
+	r.Assume("Threshold.VoteResult is judged against the exact required count (n*t10+999)/1000 computed by the monitor in integers, not against what Threshold.Threshold returns")
 
 	check := func(in input) {
 		counts := in.Counts
@@ -192,6 +192,40 @@ func TestC01(t *testing.T) {
 	r.Set("exhaustive_bound_q", q0)
 	r.Set("exhaustive_multisets", exh)
 
+	// Threshold.VoteResult at the boundary of the exact required count, every
+	// threshold of the 0.1 grid, small suffrages: one fact with required-1 and
+	// with required votes, the other nodes silent or voting another fact
+	qb := uint(r.N(40, 120))
+	for q := uint(1); q <= qb; q++ {
+		for t10 := 510; t10 <= 1000; t10++ {
+			th := base.Threshold(float64(t10) / 10)
+			req := exactRequired(q, t10)
+			for _, c0 := range []uint{req - 1, req} {
+				for _, other := range []uint{0, q - c0} {
+					if c0 > q || (c0 == 0 && other == 0) {
+						continue
+					}
+					var cs []uint
+					if c0 > 0 {
+						cs = append(cs, c0)
+					}
+					if other > 0 {
+						cs = append(cs, other)
+					}
+					in := input{Q: q, R: req, Counts: cs, Via: "grid", T: th.String()}
+					want, maj := oracle(q, req, cs)
+					vs := votes(cs, nil)
+					r.Eval(1)
+					r.Count("threshold_grid_cases", 1)
+					r.Guard("Threshold.VoteResult", in, func() {
+						got, key := th.VoteResult(q, vs)
+						checkResult(r, "Threshold.VoteResult", in, want, maj, got, key)
+					})
+				}
+			}
+		}
+	}
+
 	// Threshold.VoteResult + random large cases near the boundary
 	n := r.N(20000, 600000)
 	for i := 0; i < n; i++ {
@@ -199,7 +233,7 @@ func TestC01(t *testing.T) {
 		q := uint(1 + rng.Intn(500))
 		t10 := 510 + rng.Intn(491)
 		th := base.Threshold(float64(t10) / 10)
-		req := th.Threshold(q)
+		req := exactRequired(q, t10)
 		rr := req
 		if rr > q {
 			rr = q
@@ -287,4 +321,9 @@ func checkResult(r *vlib.Run, fn string, in input, want base.VoteResult, maj map
 	} else if key != "" {
 		r.Violation(fn+":key-without-majority", fmt.Sprintf("%s(q=%d,r=%d,%v) = %s with key %q", fn, in.Q, in.R, in.Counts, got, key), in)
 	}
+}
+
+// exactRequired is the least integer >= q*t/100 for t = t10/10, in integers.
+func exactRequired(q uint, t10 int) uint {
+	return (q*uint(t10) + 999) / 1000
 }
